@@ -48,7 +48,8 @@ def rule_loop(ctx):
                     continue
                 if e.kind in ("loop-back", "loop-exit") and e.fn is fi and cur is not None:
                     nseg += 1
-                    reads = [x for x in seg if x.kind == "await"]
+                    # suspension points of the iteration (an await of an inlined private helper is not one itself)
+                    reads = [x for x in seg if x.kind == "await" and not (isinstance(x.data["value"], Term) and x.data["value"].op == "awaited-result")]
                     apps = [x for x in seg if x.kind == "call" and is_call(x.data["term"], method="append") and "buffer" in show(x.data["term"].args[0])]
                     procs = [x for x in seg if x.kind == "call" and is_call(x.data["term"], method="process") and "buffer" in show(x.data["term"].args[0])]
                     empty = [x for x in seg if x.kind == "assume" and isinstance(x.data["cond"], Term) and x.data["cond"].op == "await"]
